@@ -724,6 +724,7 @@ func wpScenario(t *testing.T, r *vRand, mode string) (string, []string, map[stri
 			})
 			h.gated[u] = found
 			h.started[u] = found
+			delete(h.killing, u) // a new runner: no Kill loop yet
 			ret = int64(found) + 1
 		}
 		h.emit(fmt.Sprintf("OStart %s %s", gN(int64(it)), gN(wpU(u))), ret)
@@ -790,10 +791,13 @@ func wpScenario(t *testing.T, r *vRand, mode string) (string, []string, map[stri
 			return
 		}
 		h.pool.mtx.Lock()
-		_, inRunning := w.running[u]
-		_, inStarting := w.starting[u]
+		rrRun, inRunning := w.running[u]
+		rrStart, inStarting := w.starting[u]
+		// the runner that was being killed may have been closed by a probe and the container started again:
+		// the present runner has no Kill loop then, and no SIGTERM will ever be sent
+		stopping := (inRunning && rrRun.stopping && !rrRun.givenup) || (!inRunning && inStarting && rrStart.stopping && !rrStart.givenup)
 		h.pool.mtx.Unlock()
-		if !inRunning && !inStarting {
+		if (!inRunning && !inStarting) || !stopping {
 			delete(h.killing, u)
 			return
 		}
